@@ -29,6 +29,8 @@ def bounds(tier):
             "long-thin": "partition: 9..15(24) items over {1,2}, 9..12(16) over {1,2,3}, 9..11(13) over {0,1,5},{2,3,7}, bins {2,3,4,5,7,n,n+1}; packing: 9..14(24) items over {1,2} B=5, {1,2,3} B=7, {2,3,5} B=10, {0,1,4} B=4 in 6 fixed orders; the same multisets as covers with B+2 and 3B",
             "big": "partition values {0,1,2**24+1,2**31+1,2**32+3,2**40+5}; packing B=2**32 letters {1,2**31-1,2**31,2**31+1,2**32-1,2**32} (and divided by 2**32, B=1); covers B in {2**32, 2**32+2, 3*2**31} with letters next to B/3, B/2",
             "count-sweep": f"every number of bins: packing inputs needing exactly m bins and covers filling exactly m bins for every m in 1..{40 if q else 140}; partition into every k in 1..{24 if q else 70} with k-1, k, k+1, 2k+1 items",
+            "halves": "fit heuristics on multiples of 1/2 around B/2 and B for B=7 and B=10: all sequences of 1..4(5), multisets of 5..7(8) in 6 orders",
+            "fractional bin size": "covers with B=7.5 (items 1..10) and B=10.5 (items 1..12)",
             "planted covers": "B=12,13,9,101,99: every unordered pair of patterns x multiplicities (40,24)" + ("" if q else ",(100,20),(7,150)") + " (up to ~600 items)",
             "covers": f"all multisets of 1..{6 if q else 7} items over 1..B+3 for B in (6,12) + 1..{8 if q else 10} items over (1,2,3,4,6) B=12 and (1,2,3) B=6"}
 
@@ -69,10 +71,17 @@ def tasks(tier):
         ts.append(("fit-seq4", ch, 2 ** 32))
     for ch in spaces.chunked(spaces.sequences([Fraction(v, 2 ** 32) for v in BIG_LETTERS], 1, 4), 500):
         ts.append(("fit-dyadic", ch, 1))
-    for Bc in (2 ** 32, 2 ** 32 + 2, 3 * 2 ** 31):
-        letters = (1, 2, Bc // 3, Bc // 3 + 1, Bc // 2 - 1, Bc // 2, Bc // 2 + 1, Bc)
-        for ch in scopes.chunk_multisets(letters, 1, 5 if q else 6, 400):
+    for Bc in scopes.BIG_BINSIZES:
+        for ch in scopes.chunk_multisets(scopes.threshold_letters(Bc), 1, 5 if q else 6, 400):
             ts.append(("cover", ch, Bc))
+    for Bf, top in ((7.5, 10), (10.5, 12)):
+        for ch in scopes.chunk_multisets(range(1, top + 1), 1, 5 if q else 6, 400):
+            ts.append(("cover", ch, Bf))
+    for Bh, letters in scopes.HALVES.items():
+        for ch in spaces.chunked(spaces.sequences(letters, 1, 4 if q else 5), 600):
+            ts.append(("fit-seq4", ch, Bh))
+        for ch in scopes.chunk_multisets(letters, 5, 7 if q else 8, 600):
+            ts.append(("fit-long", ch, Bh))
     for ch in spaces.chunked((items for items, _, _ in scopes.count_sweep_packing(tier)), 12):
         ts.append(("fit-long", ch, 10))
     for ch in spaces.chunked((items for items, _, _ in scopes.count_sweep_cover(tier)), 12):
@@ -96,15 +105,20 @@ def _canon(bins):
     return Counter(tuple(sorted(b)) for b in bins if True)
 
 
-def _cmp(acc, algo, items, size, model):
+def _cmp(acc, algo, items, size, model, fmt="list"):
     fam = repo.family(algo)
-    case = {"algo": algo, "items": list(items), ("k" if fam == "partition" else "B"): size}
+    case = {"algo": algo, "items": list(items), ("k" if fam == "partition" else "B"): size, "fmt": fmt}
     obs = repo.call(case)
     acc.ran(algo)
     want = model(list(items), size)
     if obs[0] == "exc":
         acc.violation(algo, cfg_str(case), inp_str(case), "raises", want, obs[1:], case); return 0
     sums, lists = obs[1]
+    if obs[2] is not None:
+        try:
+            lists = [[obs[2][x] for x in b] for b in lists]       # names -> values
+        except Exception:
+            acc.violation(algo, cfg_str(case), inp_str(case), "unknown_names_in_result", want, lists, case); return 0
     acc.check()
     ws = Counter(sum(b) for b in want)
     gs = Counter(sums)
@@ -126,6 +140,9 @@ def run_task(task):
                 for a, m in M.PARTITION_MODELS.items():
                     n = max(n, _cmp(acc, a, it, k, m))
                     _cmp(acc, a, it[::-1], k, m)
+                    if len(it) <= 5:       # the rule is about values: identifiers + a value function must give the same bins
+                        _cmp(acc, a, it[::-1], k, m, "array_names")
+                        _cmp(acc, a, it, k, m, "dict_str")
                 acc.point(nontrivial=(n >= 2))
         elif scope == "partition-long":
             n = 0
@@ -155,9 +172,17 @@ def run_task(task):
             acc.point(nontrivial=(n >= 2))
         elif scope == "dec":
             n = max(_cmp(acc, a, it, size, M.PACK_MODELS[a]) for a in ("ffd", "bfd"))
+            if len(it) <= 5:
+                for a in ("ffd", "bfd"):
+                    _cmp(acc, a, it[::-1], size, M.PACK_MODELS[a], "array_names")
+                    _cmp(acc, a, it, size, M.PACK_MODELS[a], "dict_int")
             acc.point(nontrivial=(n >= 2))
         else:
             n = max(_cmp(acc, a, it, size, m) for a, m in M.COVER_MODELS.items())
+            if len(it) <= 5 and size <= 12:
+                for a, m in M.COVER_MODELS.items():
+                    _cmp(acc, a, it[::-1], size, m, "array_names")
+                    _cmp(acc, a, it, size, m, "dict_int")
             acc.point(nontrivial=(n >= 2))
         if it == chunk[0]:
             acc.sample({"input": [str(v) for v in it][:40], "size": size, "scope": scope})
